@@ -436,6 +436,12 @@ func multiValuedKeys(nc *provscheduling.NodeClaim) map[string]bool {
 			out[k] = true
 		}
 	}
+	// a well-known key the requirements do not mention is decided by the offering that gets launched
+	for _, k := range []string{corev1.LabelTopologyZone, v1.CapacityTypeLabelKey} {
+		if !nc.Requirements.Has(k) {
+			out[k] = true
+		}
+	}
 	return out
 }
 
